@@ -1,6 +1,10 @@
 // E4: explicit-state search over operation histories on the real tree (state = history, rebuilt by replay on fresh objects,
 // canonical key = hash of the observable state).  Modes: C12 (operator flags), C13 (move / rebuild / execute), C17 (bulk export).
 #include "vf_enum.hpp"
+#ifdef VF_C12_OMP
+#include "sched/vf_sched.hpp"
+#include "algorithms/openmp/tbfopenmpalgorithm.hpp"
+#endif
 
 #include <deque>
 #include <unordered_set>
@@ -32,8 +36,13 @@ template <int Dim>
 struct FlagSearch {
     using SI = Morton<Dim>;
     using FX = Fixture<double, SI, KH>;
+#ifdef VF_C12_OMP
+    using Algo = TbfOpenmpAlgorithm<double, typename FX::Kernel, SI>;      // under the mock runtime, named schedule per history
+#else
     using Algo = TbfAlgorithm<double, typename FX::Kernel, SI>;
+#endif
     Spec spec; Report& rep; Progress& pg;
+    int policy = 0;
 
     struct Snap { std::vector<std::vector<unsigned char>> cellSymb, mult, loc, pdata, prhs; std::vector<long> level; };
 
@@ -87,14 +96,26 @@ struct FlagSearch {
         fx.tag();
         fx.cx.checkArgs = true;
         std::vector<u64> digests;
+#ifdef VF_C12_OMP
+        { vfs::Config vc0; vc0.nbWorkers = 2; vc0.digests = false; vfs::beginRun(vc0); }      // the constructor asks the runtime for the thread count
         Algo algo(fx.config, spec.upperLevel);
+        vfs::endRun();
+#else
+        Algo algo(fx.config, spec.upperLevel);
+#endif
         fx.activate();
         const long up = std::max(0L, spec.upperLevel);
         for(const int flags : hist){
             Snap before; if(writeSets) before = snapshot(fx);
             fx.cx.minLevelSeen = 1000; fx.cx.maxLevelSeen = -1000;
             std::array<long,OpCount> callsBefore = fx.cx.calls;
+#ifdef VF_C12_OMP
+            { vfs::Config vc; vc.policy = vfs::Policy(policy % vfs::PolicyCount); vc.nbWorkers = 2; vc.digests = false; vfs::beginRun(vc); }
             algo.execute(*fx.tree, flags);
+            { const auto tr = vfs::endRun(); for(const auto& v : tr.violations) out.add("schedule:" + v, v); }
+#else
+            algo.execute(*fx.tree, flags);
+#endif
             if(writeSets){
                 const Snap after = snapshot(fx);
                 long minLevel; const int dm = diffMask(before, after, spec.height-1, minLevel);
@@ -112,7 +133,7 @@ struct FlagSearch {
     }
 
     void run(){
-        const std::string base = "tree: " + spec.str();
+        const std::string base = std::string("policy=") + std::to_string(policy) + " tree: " + spec.str();
         // reference: one full run
         Outcome o0; const u64 full = replay({ALLFLAGS}, o0, true).back();
         rep.addOutcome(o0, base + " history=all");
@@ -171,7 +192,7 @@ struct FlagSearch {
 // all complete histories (partitions in dependency order), replayed explicitly: 112 sequences
 template <int Dim>
 void allPartitions(const Spec& spec, Report& rep, Progress& pg){
-    FlagSearch<Dim> fs{spec, rep, pg};
+    FlagSearch<Dim> fs{spec, rep, pg, 0};
     Outcome o0; const u64 full = fs.replay({ALLFLAGS}, o0, false).back();
     for(int cut = 0 ; cut < 16 ; ++cut){
         std::vector<int> segs; int cur = CHAIN[0];
@@ -486,7 +507,11 @@ int main(int argc, char** argv){
                 switch(s.dim){
                 case 1: { FlagSearch<1> f{s, rep, pg}; f.run(); allPartitions<1>(s, rep, pg); break; }
                 case 2: { FlagSearch<2> f{s, rep, pg}; f.run(); allPartitions<2>(s, rep, pg); break; }
+#ifdef VF_C12_OMP
+                case 3: { for(int pol : {0, 1, 2, 4}){ FlagSearch<3> f{s, rep, pg, pol}; f.run(); } break; }   // defer-all fifo, run-at-creation, defer-all lifo, inverted priority
+#else
                 case 3: { FlagSearch<3> f{s, rep, pg}; f.run(); allPartitions<3>(s, rep, pg); break; }
+#endif
                 case 4: { FlagSearch<4> f{s, rep, pg}; f.run(); allPartitions<4>(s, rep, pg); break; }
                 }
                 rep.sample("tree: " + s.str() + " history=P2M|M2M ; M2L|P2P ; L2L|L2P");
